@@ -3,6 +3,8 @@
    (shared core) and the order-free specification, evaluated at the given points. -/
 import Driver.CoreWire
 import MxlVerif.Model.C12
+import MxlVerif.Model.C12Sim
+import MxlVerif.Generated.C12Glue
 open Lean Mxl Mxl.Wire Mxl.C12
 namespace Driver.H_c12
 
@@ -60,6 +62,54 @@ def statusJ {α} : Except Err α → Json
   | .ok _ => Json.mkObj [("ok", .bool true)]
   | .error e => Json.mkObj [("err", errJ e)]
 
+def jSimOp (j : Json) : Except String SimOp := do
+  match ← jArr j with
+  | [.str "set", k, v] => pure (.setPar (← jStr k) (← jRat v))
+  | [.str "edit", c] => pure (.edit (← jSContent c))
+  | [.str "reinit"] => pure .reinit
+  | [.str "call", t, xs] => pure (.call (← jRat t) (← jList jRat xs))
+  | _ => .error s!"bad sim op {j.compress}"
+
+def jacResJ (r : Except Err (Option (List (List Rat)))) : Json :=
+  resJ (fun o => match o with | none => Json.null | some m => matJ m) r
+
+/-- a history of the Simulator (`Model/C12Sim.lean`), run with the glue facts of the current source: per operation
+    what the state machine hands to the integrator (`m`) and what a Simulator freshly built on the content of that
+    moment would (`s`, `null` where a denominator of the equations or of the Jacobian vanishes there) -/
+def outJ : SimOut → Json
+  | .upd => Json.null
+  | .noJac => Json.mkObj [("ok", Json.null)]
+  | .mat J => Json.mkObj [("ok", matJ J)]
+  | .raised => Json.mkObj [("raised", .bool true)]
+
+def runHist (c : SContent) (ops : List SimOp) : Json :=
+  match simInitG Mxl.C12.Generated.glue c with
+  | .error e => Json.mkObj [("init", Json.mkObj [("err", errJ e)])]
+  | .ok s0 =>
+    let rec go (s : SimState) (ops : List SimOp) (acc : Array Json) : Array Json :=
+      match ops with
+      | [] => acc
+      | op :: rest =>
+        match s.stepG Mxl.C12.Generated.glue op with
+        | .error e => acc.push (Json.mkObj [("err", errJ e)])
+        | .ok (s', o) =>
+          let fresh : Json := match op with
+            | .call t xs =>
+              (match createCache s.content.toContent, toSymbolic s.content with
+               | .ok cn, .ok esn =>
+                 if (evalAt esn cn.varNames (symEnv s.content cn xs)).isNull then Json.str "skip"
+                 else jacResJ (callJac s.content t xs)
+               | _, _ => jacResJ (callJac s.content t xs))
+            | _ => Json.null
+          go s' rest (acc.push (Json.mkObj [("m", outJ o), ("s", fresh),
+                                            ("c", .bool (s.recompilesG Mxl.C12.Generated.glue))]))
+    -- the whole history at once (`runG`, what `C12_sim_history` is stated over): `null` when a re-initialisation raises
+    let run : Json := match runG Mxl.C12.Generated.glue s0 ops with
+      | .ok (_, outs) => .arr (outs.map outJ).toArray
+      | .error _ => Json.null
+    Json.mkObj [("init", Json.mkObj [("ok", .bool s0.jac.isSome)]), ("outs", .arr (go s0 ops #[])), ("run", run),
+                ("after", .bool (contentAfter c ops).wf)]
+
 def handle (j : Json) : Except String Json := do
   let c ← jSContent (← field j "content")
   let pts ← jArr (← field j "points")
@@ -99,7 +149,11 @@ def handle (j : Json) : Except String Json := do
     pure (Json.mkObj [("rhs", rhs), ("m", mv), ("s", sv), ("jacfn", jf), ("jacfn_upd", ju), ("jacfn_fresh", jfresh)])
   let ja := resJ (fun (a : List String × List String × List Rat) =>
       Json.arr #[strsJ a.1, strsJ a.2.1, ratsJ a.2.2]) (jacArgs c)
+  let hist : Json ← match j.getObjVal? "hist" with
+    | .ok h => do pure (runHist c (← jList jSimOp h))
+    | .error _ => pure Json.null
   pure (Json.mkObj [
+    ("hist", hist),
     ("sym", statusJ sym), ("decl", statusJ (toSymbolicDeclOrder c)), ("spec", statusJ spec),
     ("has_jac", .bool (simJacobian c).isSome), ("jacargs", ja),
     ("wf", .bool c.wf), ("convertible", .bool c.convertible),
